@@ -5,9 +5,9 @@ CONFIG = {
         "name": "txtail", "pkg": "./ledger/", "run": "^TestVerifC11$",
         "files": ["ledger/zz_verif_c11_test.go"],
         "util": [("ledger", "ledger")],
-        "env": {"quick": {"VERIF_C11_N": 2500, "VERIF_C11_OPS": 40},
-                "thorough": {"VERIF_C11_N": 60000, "VERIF_C11_OPS": 60},
-                "search": {"VERIF_C11_N": 15000, "VERIF_C11_OPS": 50}},
+        "env": {"quick": {"VERIF_C11_N": 2500, "VERIF_C11_OPS": 40, "VERIF_C11_VOL": 4},
+                "thorough": {"VERIF_C11_N": 60000, "VERIF_C11_OPS": 60, "VERIF_C11_VOL": 16},
+                "search": {"VERIF_C11_N": 15000, "VERIF_C11_OPS": 50, "VERIF_C11_VOL": 8}},
         "search_tier": "search",
         "timeout": {"quick": 900, "thorough": 3000, "search": 1500},
     }, {
@@ -23,7 +23,7 @@ CONFIG = {
             "against a real in-memory SQLite tracker DB, fresh txTail.loadFromDisk + replay with an arbitrary number of lost blocks) under consensus "
             "versions with MaxTxnLife 1..8, DeeperBlockHeaderHistory 0..2 and all four lease flag combinations, with checkDup probes after every "
             "block/restart (each recent committed tx itself, fresh ids with the same / a neighbouring lease key, near-miss ids, other LastValid, "
-            "boundary rounds) and full dumps of recent/lastValid/blockHeaderData; 4% of the histories are deliberately outside the discipline "
+            "boundary rounds) and full dumps; plus volume histories (VERIF_C11_VOL): 300-600 transactions sharing one LastValid spread over two blocks, with 255/256/257 (and 513) controls on other LastValids, flushed, reloaded once or twice, every transaction probed after each reload of recent/lastValid/blockHeaderData; 4% of the histories are deliberately outside the discipline "
             "(double commits, over-long windows; correspondence only). spec_ok: every probe for the next block (current = latest+1 <= LastValid) "
             "of a history inside the discipline must equal spec_dup, a function of the block list only. A case is non-trivial when the history is "
             "inside the discipline and at least one such probe is answered 'duplicate'. cow cases: random child/addTx/commitToParent/checkDup "
